@@ -2,7 +2,8 @@ import AbraModel.Lib.HashMap
 import AbraModel.Drv.Util
 /- Driver for the hash-table model (C27).
    Request: `hmap <op> ; <op> ; …` on one initially empty `map<K, int>` (for a set the values are ignored)
-   op   := ins <key> <int> | iset <key> <int> | get <key> | iget <key> | tryget <key> | has <key> | rem <key> | len
+   op   := ins <key> <int> | iset <key> <int> | iadd <key> <int> | isub <key> <int> | imul <key> <int>   (`m[k] op= v`)
+          | get <key> | iget <key> | tryget <key> | has <key> | rem <key> | len
    key  := i:<int> (hash = the int) | c:<int> (user key type, constant hash 7, equality on the id)
          | s:<hex utf-8> (FNV-1a as in the prelude) | t:<int>,<int> (tuple: hash_combine chain from 17)
    Answer: per op `<result>,<len>/`; `ERR:<kind>` where the program stops (`get` of an absent key panics). -/
@@ -65,6 +66,14 @@ def execOp (t : T) : List String → Option (Except Err (String × T))
       | .ok t' => .ok ("", t')
       | .error e => .error e)
     | _, _ => none
+  | [op, k, v] =>
+    let f? : Option (Int → Int → Int) :=
+      if op == "iadd" then some (· + ·) else if op == "isub" then some (· - ·) else if op == "imul" then some (· * ·) else none
+    match f?, parseKey? k, v.toInt? with
+    | some f, some k, some v => some (match indexUpdate hashKey eqKey t k (fun x => f x v) with
+      | .ok t' => .ok ("", t')
+      | .error e => .error e)
+    | _, _, _ => none
   | ["get", k] | ["iget", k] =>
     (parseKey? k).map fun k => match get hashKey eqKey t k with
       | .ok v => .ok (toString v, t)
